@@ -865,6 +865,17 @@ impl Default for BuildOpts {
     }
 }
 
+/// A model without inputs whose mailbox address nobody keeps (see `build`).
+pub fn is_detached(s: &ModelSpec) -> bool {
+    s.name.ends_with('$')
+}
+
+/// Number of models that generated commands and connections may target (detached models
+/// are appended after them).
+pub fn targetable_models(bench: &Bench) -> usize {
+    bench.models.iter().position(is_detached).unwrap_or(bench.models.len())
+}
+
 pub fn qualified_names(bench: &Bench) -> Vec<String> {
     fn q(bench: &Bench, i: usize) -> String {
         let s = &bench.models[i];
@@ -1028,7 +1039,18 @@ pub fn build(bench: &Bench, exec: &Exec, opts: &BuildOpts, start: i64) -> Built 
         .iter()
         .map(|s| Mailbox::with_capacity(s.cap.max(1)))
         .collect();
-    let addrs: Vec<Address<Node>> = mailboxes.iter().map(|m| m.address()).collect();
+    // "detached" models (name ending in '$': pure sources without inputs): nobody holds an
+    // address of their mailbox, not even the harness - the slot in `addrs` is a dead address
+    // that no generated command or connection ever uses
+    let dead_addr = {
+        let mb: Mailbox<Node> = Mailbox::new();
+        mb.address()
+    };
+    let addrs: Vec<Address<Node>> = mailboxes
+        .iter()
+        .zip(bench.models.iter())
+        .map(|(m, s)| if is_detached(s) { dead_addr.clone() } else { m.address() })
+        .collect();
     let orphans: Vec<Mailbox<Node>> = bench
         .orphans
         .iter()
@@ -1152,13 +1174,22 @@ pub fn build(bench: &Bench, exec: &Exec, opts: &BuildOpts, start: i64) -> Built 
         init = init.add_model(p, mb, bench.models[i].name.clone());
     }
     if let Some(cs) = &opts.clock {
+        // both call orders of the builder methods occur (a deterministic function of the case)
+        let tol_first = (cs.tolerance.unwrap_or(0) + cs.answers.len() as u64 + start as u64) % 2 == 1;
+        if tol_first {
+            if let Some(t) = cs.tolerance {
+                init = init.set_clock_tolerance(Duration::from_nanos(t));
+            }
+        }
         init = init.set_clock(ScriptClock {
             shared: shared.clone(),
             answers: cs.answers.clone(),
             k: 0,
         });
-        if let Some(t) = cs.tolerance {
-            init = init.set_clock_tolerance(Duration::from_nanos(t));
+        if !tol_first {
+            if let Some(t) = cs.tolerance {
+                init = init.set_clock_tolerance(Duration::from_nanos(t));
+            }
         }
     }
     if opts.timeout_ms > 0 {
